@@ -994,7 +994,13 @@ pub fn generate(rng: &mut Rng, cfg: &GenCfg) -> Option<Program> {
     if let Some(t) = target {
         let missing = t - reserve - count;
         if missing > 0 {
-            prog.ops.push(Op::Filler(missing));
+            // padding rows go in front of the program half of the time, so that real rows
+            // (public inputs, gadget rows, raw rows) end up on the last rows of the domain
+            if rng.chance(1, 2) {
+                prog.ops.insert(0, Op::Filler(missing));
+            } else {
+                prog.ops.push(Op::Filler(missing));
+            }
         }
     }
     if raw_last {
